@@ -65,6 +65,7 @@ class TG:
     def __init__(self, rnd):
         self.r = rnd
         self.defs = []       # class definition source blocks
+        self.bases = []      # names of record classes that other records derive from
         self.n = 0
 
     def name(self, p):
@@ -104,6 +105,7 @@ class TG:
                 bf = [("g0", self.prim(2)), ("g1", self.prim(2))][:r.randint(1, 2)]
                 self.defs.append(self.rec_def(bname, bf, None))
                 base = (bname, bf)
+                self.bases.append(bname)
             nm = self.name('R')
             self.defs.append(self.rec_def(nm, fields, base[0] if base else None))
             return ('rec', nm, (base[1] if base else []) + fields)
@@ -300,6 +302,13 @@ def run_type(case):
         try:
             repo_on_path()
             from cohdl import std
+            if g.bases and case['seed'] % 2 == 0:
+                # serialise the base classes first: per-class layout caches must not be inherited by derived records
+                for bname in g.bases:
+                    std.count_bits(getattr(mod, bname))
+                    cnt['base_record_serialised_first'] += 1
+            if 'TDerived' in T and case['seed'] % 2 == 0:
+                std.count_bits(mod.TInner[2])
             Tobj = eval(T, vars(mod))
             cb = std.count_bits(Tobj)
             cnt['count_bits_checked'] += 1
